@@ -189,6 +189,8 @@ def dec_jobs(tier, mode, harness="c03_dec.c", tag="dec"):
     jobs = []
     for ks in KSS:
         for (a, m) in dec_shapes(tier):
+            if mode == "siv" and a == 33 and m > 65:
+                continue            # two passes over 33 + 255 bytes give no verdict in 15 min; (0, 255) and (0, 258) stay
             if harness == "c03_call.c" and not ((a in (0, 5) and m in (0, 1, 3, 4, 5, 8)) or (a, m) in ((3, 17), (0, 33)) or
                                                 (tier != "quick" and (a, m) in ((33, 64), (0, 255), (17, 17), (1, 2), (2, 3)))):
                 continue            # the call-contract variant has no data-dependent paths: a thinner cross-section
